@@ -81,16 +81,20 @@ theorem C01_word_agrees {s : State} (h : Reachable s) :
   rfl
 
 /-- Soundness of the plain release-stores (mu_wait.c:104,108): a store is admitted only from the
-    spinlock owner, and every admitted store leaves the invariant intact — in particular it can
+    owner of the spinlock AND the writer bit (nobody else can then write the word), and every admitted store leaves the invariant intact — in particular it can
     never erase another thread's share. -/
-theorem C01_store_sound {s s' : State} (h : Reachable s) (t : Tid) (v : Nat)
-    (hs : step s (.st t v) = .ok s') : s.sp = some t ∧ Inv s' := by
+theorem C01_store_sound {s s' : State} (h : Reachable s) (t : Tid) (v : Nat) (ord : Ord)
+    (hs : step s (.st t v ord) = .ok s') : s.sp = some t ∧ s.w = some t ∧ Inv s' := by
   have hi := reachable_inv h
-  refine ⟨?_, step_inv hi hs⟩
-  simp [step] at hs
-  split at hs
-  · assumption
-  · cases hs
+  refine ⟨?_, ?_, step_inv hi hs⟩
+  · simp only [step] at hs
+    split at hs
+    · rename_i hc; exact hc.1
+    · cases hs
+  · simp only [step] at hs
+    split at hs
+    · rename_i hc; exact hc.2
+    · cases hs
 
 /-! ### Non-vacuity: concrete accepted traces -/
 
